@@ -119,13 +119,13 @@ func (k *KerberosProxy) forward(realm string, data []byte) (resp []byte, err err
 		return nil, fmt.Errorf("cannot get any kdcs (tcp or udp) for realm %s", realm)
 	}
 
-	// merge the kdcs
-	kdcs := make([]Kdc, tcpCnt+udpCnt)
-	for i := range udpKdcs {
-		kdcs[i] = Kdc{Realm: realm, Host: udpKdcs[i], Proto: "udp"}
+	// merge the kdcs in order of preference; GetKDCs numbers them starting at 1
+	kdcs := make([]Kdc, 0, tcpCnt+udpCnt)
+	for i := 1; i <= udpCnt; i++ {
+		kdcs = append(kdcs, Kdc{Realm: realm, Host: udpKdcs[i], Proto: "udp"})
 	}
-	for i := range tcpKdcs {
-		kdcs[i+udpCnt] = Kdc{Realm: realm, Host: tcpKdcs[i], Proto: "tcp"}
+	for i := 1; i <= tcpCnt; i++ {
+		kdcs = append(kdcs, Kdc{Realm: realm, Host: tcpKdcs[i], Proto: "tcp"})
 	}
 
 	replies := make(chan []byte, len(kdcs))
